@@ -28,7 +28,7 @@ BUDGET_S = {'quick': 45, 'thorough': 480}
 N_MODULES = {'quick': 160, 'thorough': 6000}
 PER_ENUM = 6
 ENUMS_PER_MODULE = 4
-MIN_OBS = {'evaluator_outcome': {'quick': 1500, 'thorough': 50000}}
+MIN_OBS = {'evaluator_outcome': {'quick': 500, 'thorough': 10000}}
 
 BIN_OPS = ['+', '-', '*', '/', '%', '|', '^', '&', '<<', '>>']
 
